@@ -8,6 +8,7 @@ import (
 	"reflect"
 	"strings"
 	"sync"
+	"sync/atomic"
 	"time"
 
 	eb "github.com/jilio/ebu"
@@ -25,6 +26,45 @@ type pubInfo struct {
 
 type busEvt interface {
 	get() (int, *pubInfo)
+}
+
+// Type 40 is json.RawMessage itself (an event that is a pre-encoded, possibly malformed, document): it cannot
+// carry methods or a pointer, so its publish info is looked up by the "pid" in the document.
+var (
+	rawPubs   sync.Map
+	rawPubSeq atomic.Int64
+)
+
+func mkRaw(v int, bad any, p *pubInfo) json.RawMessage {
+	pid := rawPubSeq.Add(1)
+	rawPubs.Store(int(pid), p)
+	if bad != nil {
+		return json.RawMessage(fmt.Sprintf(`{"v":%d,"pid":%d`, v, pid)) // truncated: no JSON encoding
+	}
+	return json.RawMessage(fmt.Sprintf(`{"v":%d,"pid":%d}`, v, pid))
+}
+
+// T41 is published (and subscribed to) as a pointer: its event type is *main.T41.
+type T41 struct {
+	V   int `json:"v"`
+	Bad any `json:"bad,omitempty"`
+	p   *pubInfo
+}
+
+func (e *T41) get() (int, *pubInfo) { return e.V, e.p }
+
+func getVP(e any) (int, *pubInfo) {
+	switch x := e.(type) {
+	case busEvt:
+		return x.get()
+	case json.RawMessage:
+		var v, pid int
+		fmt.Sscanf(string(x), `{"v":%d,"pid":%d`, &v, &pid)
+		if p, ok := rawPubs.Load(pid); ok {
+			return v, p.(*pubInfo)
+		}
+	}
+	panic(fmt.Sprintf("harness: event of unknown shape %T", e))
 }
 
 type ctxKey int
@@ -86,6 +126,9 @@ type recStore struct {
 }
 
 func tyOfName(name string) int {
+	if name == "json.RawMessage" {
+		return 40
+	}
 	if strings.HasPrefix(name, "n") && strings.Contains(name, ".v") {
 		return atoi(name[1:strings.Index(name, ".v")])
 	}
@@ -203,8 +246,8 @@ type typeOps struct {
 }
 
 // handle is the body of every handler closure.
-func (cs *busCase) handle(rid int, lit int, ctx context.Context, e busEvt, ty int) {
-	v, p := e.get()
+func (cs *busCase) handle(rid int, lit int, ctx context.Context, e any, ty int) {
+	v, p := getVP(e)
 	async := false
 	cs.mu.Lock()
 	if cs.asyncEntry {
@@ -233,7 +276,7 @@ func (cs *busCase) handle(rid int, lit int, ctx context.Context, e busEvt, ty in
 }
 
 //go:noinline
-func plainLit[T busEvt](cs *busCase, ty, hid, rid int) func(T) {
+func plainLit[T any](cs *busCase, ty, hid, rid int) func(T) {
 	switch hid {
 	case 0:
 		return func(e T) { cs.handle(rid, 0, nil, e, ty) }
@@ -251,7 +294,7 @@ func plainLit[T busEvt](cs *busCase, ty, hid, rid int) func(T) {
 }
 
 //go:noinline
-func ctxLit[T busEvt](cs *busCase, ty, hid, rid int) func(context.Context, T) {
+func ctxLit[T any](cs *busCase, ty, hid, rid int) func(context.Context, T) {
 	switch hid {
 	case 6:
 		return func(c context.Context, e T) { cs.handle(rid, 6, c, e, ty) }
@@ -268,7 +311,7 @@ func ctxLit[T busEvt](cs *busCase, ty, hid, rid int) func(context.Context, T) {
 	}
 }
 
-func mkOps[T busEvt](ty int, mk func(v int, bad any, p *pubInfo) T) typeOps {
+func mkOps[T any](ty int, mk func(v int, bad any, p *pubInfo) T) typeOps {
 	return typeOps{
 		subscribe: func(cs *busCase, r regSpec) {
 			rid := cs.nextRid
@@ -286,7 +329,7 @@ func mkOps[T busEvt](ty int, mk func(v int, bad any, p *pubInfo) T) typeOps {
 			}
 			if r.filtM > 0 {
 				opts = append(opts, eb.WithFilter(func(e T) bool {
-					v, p := e.get()
+					v, p := getVP(e)
 					ok := v%r.filtM == r.filtR
 					cs.emit("filt %d %d %d %s", p.depth, rid, v, b01(ok))
 					return ok
@@ -538,12 +581,12 @@ func busDomain(lines []string) []string {
 					opts = append(opts, eb.WithAfterPublishContext(func(c context.Context, t reflect.Type, e any) { cs.hook("ac", t, e) }))
 				case w == "panich":
 					opts = append(opts, eb.WithPanicHandler(func(e any, ht reflect.Type, val any) {
-						v, p := e.(busEvt).get()
+						v, p := getVP(e)
 						cs.emit("panich %d %s %d %d %v", p.depth, b01(ht.NumIn() == 2), tyOfName(reflect.TypeOf(e).String()), v, val)
 					}))
 				case w == "perrh":
 					opts = append(opts, eb.WithPersistenceErrorHandler(func(e any, t reflect.Type, err error) {
-						v, p := e.(busEvt).get()
+						v, p := getVP(e)
 						cs.emit("perr %d %d %d %s", p.depth, tyOfName(t.String()), v, b01(strings.Contains(err.Error(), "marshal")))
 					}))
 				case w == "ptimeout":
@@ -612,7 +655,10 @@ func busDomain(lines []string) []string {
 }
 
 func (cs *busCase) hook(kind string, t reflect.Type, e any) {
-	v, p := e.(busEvt).get()
+	v, p := getVP(e)
+	if t != reflect.TypeOf(e) {
+		cs.emit("!hook-type %s hook called with type %v for an event of type %T", kind, t, e)
+	}
 	cs.emit("hook %d %s %d %d", p.depth, kind, tyOfName(t.String()), v)
 }
 
